@@ -44,6 +44,17 @@ does not create children -/
 def BehOK (b : BehDef) : Prop :=
   ∀ r ∈ b.rules, (r.1 = .terminatedSelf ∨ r.1 = .terminatedAny ∨ r.1 = .any) → ∀ act ∈ r.2, isSpawn act = false
 
+/-- the handler of this incarnation has been shown `OnTerminate` -/
+def hasT (x : Actor) : Prop := ∃ s, ({ inc := x.inc, obs := Obs.terminate, sender := s } : LogEntry) ∈ x.log
+/-- the handler of this incarnation has been shown its own `OnTerminated` -/
+def hasD (a : Aid) (x : Actor) : Prop := ∃ s, ({ inc := x.inc, obs := Obs.terminated a, sender := s } : LogEntry) ∈ x.log
+
+/-- in the handler record of actor `a`: every own `OnTerminated` is preceded by an `OnTerminate` of the
+same incarnation -/
+def okLog (a : Aid) (l : List LogEntry) : Prop :=
+  ∀ (k i : Nat) (s : Option Aid), l[k]? = some ({ inc := i, obs := Obs.terminated a, sender := s } : LogEntry) →
+    ∃ j : Nat, j < k ∧ ∃ s' : Option Aid, l[j]? = some ({ inc := i, obs := Obs.terminate, sender := s' } : LogEntry)
+
 structure TI (w : World) : Prop where
   /-- a living actor is listed in its parent's children table; parents are older than children -/
   par : ∀ c, c < nA w → ∀ p, (actorAt w c).parent = some p →
@@ -57,6 +68,11 @@ structure TI (w : World) : Prop where
   sndS : ∀ a, a < nA w → ∀ m x, (m, some x) ∈ (actorAt w a).sysQ → inScope (nA w) x
   sndU : ∀ a, a < nA w → ∀ m x, (m, some x) ∈ (actorAt w a).userQ → inScope (nA w) x
   cur : ∀ a, a < nA w → inScopeO (nA w) (actorAt w a).curSender
+  /-- lifecycle record: a terminating incarnation has handled `OnTerminate`, a terminated one also its own
+      `OnTerminated`, and in the whole record `OnTerminate` precedes the own `OnTerminated` -/
+  lgT : ∀ a, a < nA w → (actorAt w a).status = .terminating → hasT (actorAt w a)
+  lgD : ∀ a, a < nA w → (actorAt w a).status = .terminated → hasT (actorAt w a) ∧ hasD a (actorAt w a)
+  lgOK : ∀ a, a < nA w → okLog a (actorAt w a).log
   /-- only the guard (actor 0) has no parent -/
   root : ∀ a, a < nA w → (actorAt w a).parent = none → a = 0
   /-- the channel `Shutdown` waits on is closed only after the guard has terminated -/
@@ -87,7 +103,23 @@ inductive Prim : World → World → Prop where
       (∀ e, e ∈ (f (actorAt w a)).sysQ → e ∈ (actorAt w a).sysQ) →
       (∀ e, e ∈ (f (actorAt w a)).userQ → e ∈ (actorAt w a).userQ) →
       (f (actorAt w a)).curSender = (actorAt w a).curSender →
+      (f (actorAt w a)).log = (actorAt w a).log →
+      (f (actorAt w a)).inc = (actorAt w a).inc →
+      ((f (actorAt w a)).status = .terminating → (actorAt w a).status = .terminating) →
       Prim w { w with actors := w.actors.modify a f }
+  /-- `handle`: the handler is shown `obs` (recorded in the actor's log). Its own `OnTerminated` only after
+      an `OnTerminate` of the same incarnation. -/
+  | logged (w : World) (a : Aid) (obs : Obs) :
+      (nA w ≤ ghostBase → obs = .terminated a → hasT (actorAt w a)) →
+      Prim w { w with actors := w.actors.modify a fun x =>
+        { x with log := x.log ++ [{ inc := x.inc, obs := obs, sender := x.curSender }] } }
+  /-- `onTerminate`: CAS alive → terminating, then the handler is shown `OnTerminate` -/
+  | beginTerm (w : World) (a : Aid) : (actorAt w a).status = .alive →
+      Prim w { w with actors := w.actors.modify a fun x =>
+        { x with status := .terminating, log := x.log ++ [{ inc := x.inc, obs := .terminate, sender := x.curSender }] } }
+  /-- the end of a restart: a fresh incarnation -/
+  | revive (w : World) (a : Aid) : (actorAt w a).status = .restarting →
+      Prim w { w with actors := w.actors.modify a fun x => { x with inc := x.inc + 1, status := .alive } }
   | setCur (w : World) (a : Aid) (s : Option Aid) : (nA w ≤ ghostBase → inScopeO (nA w) s) →
       Prim w { w with actors := w.actors.modify a fun x => { x with curSender := s } }
   | setCurG (w : World) (a : Aid) (s : Option Aid) : (nA w ≤ ghostBase → inScopeO (nA w) s) →
@@ -97,9 +129,11 @@ inductive Prim : World → World → Prop where
       Prim w { w with actors := w.actors.modify a fun x => { x with sysQ := x.sysQ ++ [(m, s)], hasRunner := true } }
   | pushU (w : World) (a : Aid) (m : UMsg) (s : Option Aid) : (nA w ≤ ghostBase → inScopeO (nA w) s) →
       Prim w { w with actors := w.actors.modify a fun x => { x with userQ := x.userQ ++ [(m, s)], hasRunner := true } }
-  /-- `tryTerminated`: CAS terminating → terminated, only with an empty children table -/
+  /-- `tryTerminated`: CAS terminating → terminated, only with an empty children table, then the handler is
+      shown its own `OnTerminated` -/
   | term (w : World) (a : Aid) : (actorAt w a).status = .terminating → (actorAt w a).children = [] →
-      Prim w { w with actors := w.actors.modify a fun x => { x with status := .terminated } }
+      Prim w { w with actors := w.actors.modify a fun x =>
+        { x with status := .terminated, log := x.log ++ [{ inc := x.inc, obs := .terminated a, sender := x.curSender }] } }
   /-- `rc.Unregister` at the end of `tryTerminated` -/
   | unreg (w : World) (a : Aid) : (actorAt w a).status = .terminated →
       Prim w { w with actors := w.actors.modify a fun x => { x with registered := false } }
@@ -197,7 +231,10 @@ theorem TI_modify (w : World) (a : Aid) (f : Actor → Actor) (h : TI w)
     (l1 : (f (actorAt w a)).status = .terminated → (f (actorAt w a)).children = [])
     (ss : ∀ m x, (m, some x) ∈ (f (actorAt w a)).sysQ → inScope (nA w) x)
     (su : ∀ m x, (m, some x) ∈ (f (actorAt w a)).userQ → inScope (nA w) x)
-    (cc : inScopeO (nA w) (f (actorAt w a)).curSender) :
+    (cc : inScopeO (nA w) (f (actorAt w a)).curSender)
+    (t1 : (f (actorAt w a)).status = .terminating → hasT (f (actorAt w a)))
+    (t2 : (f (actorAt w a)).status = .terminated → hasT (f (actorAt w a)) ∧ hasD a (f (actorAt w a)))
+    (t3 : okLog a (f (actorAt w a)).log) :
     TI { w with actors := w.actors.modify a f } := by
   have hn : nA { w with actors := w.actors.modify a f } = nA w := nA_mod w a f
   have hst : ∀ b, b < nA w → (actorAt w b).status = .terminated →
@@ -207,7 +244,7 @@ theorem TI_modify (w : World) (a : Aid) (f : Actor → Actor) (h : TI w)
     split
     · rename_i hab; obtain ⟨hab, _⟩ := hab; subst hab; exact s1 hd
     · exact hd
-  refine ⟨?_, ?_, ?_, ?_, ?_, ?_, ?_, ?_, ?_, (by intro p hp; rw [hn]; exact h.tim p hp), h.behs⟩
+  refine ⟨?_, ?_, ?_, ?_, ?_, ?_, ?_, ?_, ?_, ?_, ?_, ?_, (by intro p hp; rw [hn]; exact h.tim p hp), h.behs⟩
   · intro c hc p hp
     rw [hn] at hc
     have hp' : (actorAt w c).parent = some p := by
@@ -264,6 +301,24 @@ theorem TI_modify (w : World) (a : Aid) (f : Actor → Actor) (h : TI w)
     split
     · rename_i hab; obtain ⟨hab, _⟩ := hab; subst hab; exact cc
     · exact h.cur b hb
+  · intro b hb hs
+    rw [hn] at hb
+    rw [actorAt_mod] at hs ⊢
+    split
+    · rename_i hab; rw [if_pos hab] at hs; obtain ⟨hab, _⟩ := hab; subst hab; exact t1 hs
+    · rename_i hab; rw [if_neg hab] at hs; exact h.lgT b hb hs
+  · intro b hb hs
+    rw [hn] at hb
+    rw [actorAt_mod] at hs ⊢
+    split
+    · rename_i hab; rw [if_pos hab] at hs; obtain ⟨hab, _⟩ := hab; subst hab; exact t2 hs
+    · rename_i hab; rw [if_neg hab] at hs; exact h.lgD b hb hs
+  · intro b hb
+    rw [hn] at hb
+    rw [actorAt_mod]
+    split
+    · rename_i hab; obtain ⟨hab, _⟩ := hab; subst hab; exact t3
+    · exact h.lgOK b hb
   · intro b hb hp
     rw [hn] at hb
     apply h.root b hb
@@ -287,7 +342,11 @@ theorem TI_of_eq {w w' : World} (ha : w'.actors = w.actors) (hb : w'.behs = w.be
     (h : TI w) : TI w' := by
   have hat : ∀ b, actorAt w' b = actorAt w b := by intro b; unfold actorAt; rw [ha]
   have hn : nA w' = nA w := by simp [nA, ha]
-  refine ⟨?_, ?_, ?_, ?_, ?_, ?_, ?_, (by intro a hl hp; rw [hn] at hl; rw [hat] at hp; exact h.root a hl hp),
+  refine ⟨?_, ?_, ?_, ?_, ?_, ?_, ?_,
+    (by intro a hl hs; rw [hn] at hl; rw [hat] at hs ⊢; exact h.lgT a hl hs),
+    (by intro a hl hs; rw [hn] at hl; rw [hat] at hs ⊢; exact h.lgD a hl hs),
+    (by intro a hl; rw [hn] at hl; rw [hat]; exact h.lgOK a hl),
+    (by intro a hl hp; rw [hn] at hl; rw [hat] at hp; exact h.root a hl hp),
     (by intro hcl; rw [hat]; exact hc hcl), (by intro p hp; rw [hn]; exact ht p hp), ?_⟩
   · intro c hc p hp; rw [hn] at hc; rw [hat] at hp; rw [hat, hat]; exact h.par c hc p hp
   · intro a hl who s hm; rw [hn] at hl; rw [hat] at hm
@@ -346,7 +405,7 @@ theorem TI_spawn (w : World) (p : Aid) (beh : Nat) (hp : p < nA w)
   have hbehs : w'.behs = w.behs := by subst hw'; rfl
   have htim : ∀ p ∈ w'.timers, p.1 < nA w' := by
     intro p hp; subst hw'; rw [hn]; exact Nat.lt_succ_of_lt (h.tim p hp)
-  refine ⟨?_, ?_, ?_, ?_, ?_, ?_, ?_, ?_, ?_, htim, ?_⟩
+  refine ⟨?_, ?_, ?_, ?_, ?_, ?_, ?_, ?_, ?_, ?_, ?_, ?_, htim, ?_⟩
   · intro c hc q hq
     rw [hn] at hc
     by_cases hcn : c = nA w
@@ -422,6 +481,30 @@ theorem TI_spawn (w : World) (p : Aid) (beh : Nat) (hp : p < nA w)
       by_cases hap : a = p
       · subst hap; rw [hpar]; exact h.cur a ha'
       · rw [hold a ha' hap]; exact h.cur a ha'
+  · intro a ha hs
+    rw [hn] at ha
+    by_cases han : a = nA w
+    · subst han; rw [hnew] at hs; simp [freshChild] at hs
+    · have ha' : a < nA w := by omega
+      by_cases hap : a = p
+      · subst hap; rw [hpar] at hs ⊢; exact h.lgT a ha' hs
+      · rw [hold a ha' hap] at hs ⊢; exact h.lgT a ha' hs
+  · intro a ha hs
+    rw [hn] at ha
+    by_cases han : a = nA w
+    · subst han; rw [hnew] at hs; simp [freshChild] at hs
+    · have ha' : a < nA w := by omega
+      by_cases hap : a = p
+      · subst hap; rw [hpar] at hs ⊢; exact h.lgD a ha' hs
+      · rw [hold a ha' hap] at hs ⊢; exact h.lgD a ha' hs
+  · intro a ha
+    rw [hn] at ha
+    by_cases han : a = nA w
+    · subst han; rw [hnew]; unfold okLog; intro k i s hk; simp [freshChild] at hk
+    · have ha' : a < nA w := by omega
+      by_cases hap : a = p
+      · subst hap; rw [hpar]; exact h.lgOK a ha'
+      · rw [hold a ha' hap]; exact h.lgOK a ha'
   · intro a ha hpn
     rw [hn] at ha
     by_cases han : a = nA w
@@ -437,6 +520,32 @@ theorem TI_spawn (w : World) (p : Aid) (beh : Nat) (hp : p < nA w)
     exact hstat 0 (lt_of_terminated w 0 h0) h0
   · rw [hbehs]; exact h.behs
 
+
+theorem okLog_append {a : Aid} {l : List LogEntry} (h : okLog a l) (e : LogEntry)
+    (hg : e.obs = .terminated a → ∃ s, ({ inc := e.inc, obs := Obs.terminate, sender := s } : LogEntry) ∈ l) :
+    okLog a (l ++ [e]) := by
+  intro k i s hk
+  by_cases hlt : k < l.length
+  · rw [List.getElem?_append_left hlt] at hk
+    obtain ⟨j, hj, s', hs'⟩ := h k i s hk
+    exact ⟨j, hj, s', by rw [List.getElem?_append_left (Nat.lt_trans hj hlt)]; exact hs'⟩
+  · have hge : l.length ≤ k := Nat.le_of_not_lt hlt
+    rw [List.getElem?_append_right hge] at hk
+    have hk0 : k - l.length = 0 := by
+      cases hkk : k - l.length with
+      | zero => rfl
+      | succ n => rw [hkk] at hk; simp at hk
+    rw [hk0] at hk
+    simp only [List.getElem?_cons_zero, Option.some.injEq] at hk
+    obtain ⟨s0, hs0⟩ := hg (by rw [hk])
+    obtain ⟨j, hj, hjj⟩ := List.getElem_of_mem hs0
+    refine ⟨j, by omega, s0, ?_⟩
+    rw [List.getElem?_append_left hj, List.getElem?_eq_getElem hj, hjj, hk]
+
+theorem hasT_append {x y : Actor} (e : LogEntry) (hl : y.log = x.log ++ [e]) (hi : y.inc = x.inc)
+    (h : hasT x) : hasT y := by
+  obtain ⟨s, hs⟩ := h
+  exact ⟨s, by rw [hl, hi]; exact List.mem_append_left _ hs⟩
 
 /-- every primitive update preserves the invariant (as long as real ids stay below the ghost range) -/
 theorem TI_prim {w w' : World} (hp : Prim w w') (hb : nA w' ≤ ghostBase) (h : TI w) : TI w' := by
@@ -455,7 +564,7 @@ theorem TI_prim {w w' : World} (hp : Prim w w') (hb : nA w' ≤ ghostBase) (h : 
     refine TI_of_eq (w := w) rfl rfl ?_ h.shut h
     intro q hq
     exact h.tim q (by rw [hr]; exact List.mem_cons_of_mem _ hq)
-  | upd a f hch hpa hre hst hsq huq hcu =>
+  | upd a f hch hpa hre hst hsq huq hcu hlog hinc htg =>
     by_cases ha : a < nA w
     · apply TI_modify w a f h
       · exact hst.mpr
@@ -467,6 +576,13 @@ theorem TI_prim {w w' : World} (hp : Prim w w') (hb : nA w' ≤ ghostBase) (h : 
       · intro m x hm; exact h.sndS a ha m x (hsq _ hm)
       · intro m x hm; exact h.sndU a ha m x (huq _ hm)
       · rw [hcu]; exact h.cur a ha
+      · intro hs
+        obtain ⟨s, hs'⟩ := h.lgT a ha (htg hs)
+        exact ⟨s, by rw [hlog, hinc]; exact hs'⟩
+      · intro hs
+        obtain ⟨⟨s, h1⟩, ⟨s2, h2⟩⟩ := h.lgD a ha (hst.mp hs)
+        exact ⟨⟨s, by rw [hlog, hinc]; exact h1⟩, ⟨s2, by rw [hlog, hinc]; exact h2⟩⟩
+      · rw [hlog]; exact h.lgOK a ha
     · rw [modify_ge w a f (Nat.le_of_not_lt ha)]; exact h
   | setCur a s hs =>
     have hs := hs hbw
@@ -481,6 +597,9 @@ theorem TI_prim {w w' : World} (hp : Prim w w') (hb : nA w' ≤ ghostBase) (h : 
       · exact h.sndS a ha
       · exact h.sndU a ha
       · exact hs
+      · exact h.lgT a ha
+      · exact h.lgD a ha
+      · exact h.lgOK a ha
     · rw [modify_ge w a _ (Nat.le_of_not_lt ha)]; exact h
   | setCurG a s hs =>
     have hs := hs hbw
@@ -495,6 +614,9 @@ theorem TI_prim {w w' : World} (hp : Prim w w') (hb : nA w' ≤ ghostBase) (h : 
       · exact h.sndS a ha
       · exact h.sndU a ha
       · exact hs
+      · exact h.lgT a ha
+      · exact h.lgD a ha
+      · exact h.lgOK a ha
     · rw [modify_ge w a _ (Nat.le_of_not_lt ha)]; exact h
   | pushS a m s hs hm =>
     have hs := hs hbw
@@ -518,6 +640,9 @@ theorem TI_prim {w w' : World} (hp : Prim w w') (hb : nA w' ≤ ghostBase) (h : 
         · subst h2; exact hs
       · exact h.sndU a ha
       · exact h.cur a ha
+      · exact h.lgT a ha
+      · exact h.lgD a ha
+      · exact h.lgOK a ha
     · rw [modify_ge w a _ (Nat.le_of_not_lt ha)]; exact h
   | pushU a m s hs =>
     have hs := hs hbw
@@ -536,10 +661,64 @@ theorem TI_prim {w w' : World} (hp : Prim w w') (hb : nA w' ≤ ghostBase) (h : 
         · exact h.sndU a ha m' x hold
         · subst h2; exact hs
       · exact h.cur a ha
+      · exact h.lgT a ha
+      · exact h.lgD a ha
+      · exact h.lgOK a ha
+    · rw [modify_ge w a _ (Nat.le_of_not_lt ha)]; exact h
+  | logged a obs hg =>
+    by_cases ha : a < nA w
+    · apply TI_modify w a _ h
+      · exact id
+      · rfl
+      · intro c hc _; exact Or.inl hc
+      · intro who s' hm; exact h.msg a ha who s' hm
+      · exact h.reg a ha
+      · exact h.leaf a ha
+      · exact h.sndS a ha
+      · exact h.sndU a ha
+      · exact h.cur a ha
+      · intro hs; exact hasT_append _ rfl rfl (h.lgT a ha hs)
+      · intro hs
+        obtain ⟨h1, ⟨s2, h2⟩⟩ := h.lgD a ha hs
+        exact ⟨hasT_append _ rfl rfl h1, ⟨s2, List.mem_append_left _ h2⟩⟩
+      · exact okLog_append (h.lgOK a ha) _ (fun ho => hg hbw ho)
+    · rw [modify_ge w a _ (Nat.le_of_not_lt ha)]; exact h
+  | beginTerm a hal =>
+    by_cases ha : a < nA w
+    · apply TI_modify w a _ h
+      · intro hd; rw [hal] at hd; cases hd
+      · rfl
+      · intro c hc _; exact Or.inl hc
+      · intro who s' hm; exact h.msg a ha who s' hm
+      · intro hr; have := h.reg a ha hr; rw [hal] at this; cases this
+      · intro hd; cases hd
+      · exact h.sndS a ha
+      · exact h.sndU a ha
+      · exact h.cur a ha
+      · intro _; exact ⟨(actorAt w a).curSender, List.mem_append_right _ (List.mem_singleton.mpr rfl)⟩
+      · intro hd; cases hd
+      · exact okLog_append (h.lgOK a ha) _ (fun ho => by cases ho)
+    · rw [modify_ge w a _ (Nat.le_of_not_lt ha)]; exact h
+  | revive a hre =>
+    by_cases ha : a < nA w
+    · apply TI_modify w a _ h
+      · intro hd; rw [hre] at hd; cases hd
+      · rfl
+      · intro c hc _; exact Or.inl hc
+      · intro who s' hm; exact h.msg a ha who s' hm
+      · intro hr; have := h.reg a ha hr; rw [hre] at this; cases this
+      · intro hd; cases hd
+      · exact h.sndS a ha
+      · exact h.sndU a ha
+      · exact h.cur a ha
+      · intro hd; cases hd
+      · intro hd; cases hd
+      · exact h.lgOK a ha
     · rw [modify_ge w a _ (Nat.le_of_not_lt ha)]; exact h
   | term a hs hc =>
     by_cases ha : a < nA w
-    · apply TI_modify w a _ h
+    · have hT := h.lgT a ha hs
+      apply TI_modify w a _ h
       · intro _; rfl
       · rfl
       · intro c hcm _; exact Or.inl hcm
@@ -549,6 +728,10 @@ theorem TI_prim {w w' : World} (hp : Prim w w') (hb : nA w' ≤ ghostBase) (h : 
       · exact h.sndS a ha
       · exact h.sndU a ha
       · exact h.cur a ha
+      · intro hd; cases hd
+      · intro _
+        exact ⟨hasT_append _ rfl rfl hT, ⟨(actorAt w a).curSender, List.mem_append_right _ (List.mem_singleton.mpr rfl)⟩⟩
+      · exact okLog_append (h.lgOK a ha) _ (fun _ => hT)
     · rw [modify_ge w a _ (Nat.le_of_not_lt ha)]; exact h
   | unreg a hs =>
     by_cases ha : a < nA w
@@ -562,14 +745,14 @@ theorem TI_prim {w w' : World} (hp : Prim w w') (hb : nA w' ≤ ghostBase) (h : 
       · exact h.sndS a ha
       · exact h.sndU a ha
       · exact h.cur a ha
+      · exact h.lgT a ha
+      · exact h.lgD a ha
+      · exact h.lgOK a ha
     · rw [modify_ge w a _ (Nat.le_of_not_lt ha)]; exact h
   | dropChild a who hdg =>
     have hdg := hdg hbw
     by_cases ha : a < nA w
-    · have hn : nA w ≤ ghostBase := by
-        have : nA { w with actors := w.actors.modify a fun x => { x with children := x.children.filter (· ≠ who) } } = nA w :=
-          nA_mod w a _
-        rw [this] at hb; exact hb
+    · have hn : nA w ≤ ghostBase := hbw
       apply TI_modify w a _ h
       · exact id
       · rfl
@@ -586,6 +769,9 @@ theorem TI_prim {w w' : World} (hp : Prim w w') (hb : nA w' ≤ ghostBase) (h : 
       · exact h.sndS a ha
       · exact h.sndU a ha
       · exact h.cur a ha
+      · exact h.lgT a ha
+      · exact h.lgD a ha
+      · exact h.lgOK a ha
     · rw [modify_ge w a _ (Nat.le_of_not_lt ha)]; exact h
   | spawn p beh hpn hst => exact TI_spawn w p beh hpn hst h
 
@@ -606,7 +792,7 @@ theorem Prim.parent_eq {w w' : World} (h : Prim w w') (a : Aid) (ha : a < nA w) 
     (actorAt w' a).parent = (actorAt w a).parent := by
   cases h with
   | frame _ hact _ _ _ => unfold actorAt; rw [hact]
-  | upd b f _ hpa _ _ _ _ _ =>
+  | upd b f _ hpa _ _ _ _ _ _ _ _ =>
     rw [actorAt_mod]; split
     · rename_i hab; obtain ⟨hab, _⟩ := hab; subst hab; exact hpa
     · rfl
@@ -631,9 +817,17 @@ theorem Prim.dead_mono {w w' : World} (h : Prim w w') (a : Aid)
   have ha := lt_of_terminated w a hd
   cases h with
   | frame _ hact _ _ _ => unfold actorAt at *; rw [hact]; exact hd
-  | upd b f _ _ _ hst _ _ _ =>
+  | upd b f _ _ _ hst _ _ _ _ _ _ =>
     rw [actorAt_mod]; split
     · rename_i hab; obtain ⟨hab, _⟩ := hab; subst hab; exact hst.mpr hd
+    · exact hd
+  | beginTerm b hal =>
+    rw [actorAt_mod]; split
+    · rename_i hab; obtain ⟨hab, _⟩ := hab; subst hab; rw [hal] at hd; cases hd
+    · exact hd
+  | revive b hre =>
+    rw [actorAt_mod]; split
+    · rename_i hab; obtain ⟨hab, _⟩ := hab; subst hab; rw [hre] at hd; cases hd
     · exact hd
   | spawn p beh hp _ =>
     rw [actorAt_spawn w p beh hp]
